@@ -424,6 +424,10 @@ func (st *Store) getValue(txn *badger.Txn, key []byte) (interface{}, error) {
 		}
 		tv := reflect.New(t)
 		if st.useMarshal {
+			if t.Kind() == reflect.Ptr {
+				// A pointer type needs an element to unmarshal into
+				tv.Elem().Set(reflect.New(t.Elem()))
+			}
 			v = tv.Elem().Interface()
 			err := v.(encoding.BinaryUnmarshaler).UnmarshalBinary(dta)
 			if err != nil {
